@@ -368,7 +368,17 @@ impl VariablesState {
                 _ => false,
             },
             ValueType::List(val) => match &default_val.value {
-                ValueType::List(default_val) => *val == *default_val,
+                ValueType::List(default_val) => {
+                    // Empty lists are only equal if they remember the same origin lists.
+                    *val == *default_val
+                        && (!val.items.is_empty() || {
+                            let mut a = val.get_origin_names();
+                            let mut b = default_val.get_origin_names();
+                            a.sort();
+                            b.sort();
+                            a == b
+                        })
+                }
                 _ => false,
             },
             ValueType::String(val) => match &default_val.value {
